@@ -11,6 +11,7 @@ NOTE = ("Trusted base: z3 5.1; the engine's fork/replay logic; the numpy/pandas 
         "lru_cache/joblib transparency; the size bounds listed in the evidence file.")
 
 CLAIMED = {
+    "C03": ("2 (C03)", "Sixteen forecaster kinds (naive variants, polynomial trend, statsmodels adapter, the four reducers, ensemble, pipeline, stacking, multiplexer, grid search) run symbolically with relative or absolute horizons given at fit or at predict, optionally after an update, for symbolic values and a symbolic integer index origin: one value per step, index = cutoff + fh, increasing, cutoff = last label after fit/update, finite values, and for the non-stub forecasters a second run at origin + delta (delta symbolic) proves shift invariance."),
     "C13": ("2 (C13)", "Deseasonalizer / ConditionalDeseasonalizer (symbolic seasonal vector, free integer offsets of the transformed and of an update stretch), Detrender (stub forecaster and exact least-squares default), Box-Cox / log (uninterpreted inverse pairs), TabularToSeriesAdaptor, OptionalPassthrough executed symbolically: inverse(transform(z)) = z, output index = input index, seasonal phase = position modulo sp relative to the training series before and after update, fit_transform = fit+transform; Hampel filter and Imputer rules proved invariant under a symbolic shift of the index."),
     "C10": ("2 (C10)", "Enumerated call programs over {update(T/F), predict, update_predict_single, update_predict} after fit, each executed symbolically (batch sizes, overlap, horizon, fh-at-fit flag forked; values and index origin symbolic) on NaiveForecaster variants, a custom-update member, an ensemble and a pipeline; remembered data = union with later values winning, cutoffs, forecasts equal to a fresh fit on the union (or to the old fitted state from the new cutoff), update_predict = the single-step sequence of a twin, cutoff restored."),
     "C08": ("2 (C08)", "ForecastingGridSearchCV / ForecastingRandomizedSearchCV fit executed symbolically (real evaluate, real splitter, real ParameterGrid/clone/set_params) over plain, pipeline (nested f__p) and multiplexer base forecasters with symbolic fold scores; cv_results_ rows, optimality of best_index_ in the declared direction, best_params_/best_score_, refit on the whole series, predict/update/cutoff delegation and NotFittedError without refit are proved on every ordering of the scores."),
